@@ -14,6 +14,12 @@ Local Open Scope N_scope.
 Definition conn_max_body (params_max_body : option N) (stream_max_buffer : N) : N :=
   match params_max_body with Some n => n | None => stream_max_buffer end.
 
+(* HTTP1ConnectionParameters.__init__: self.max_header_size = max_header_size or 65536
+   (None and 0 both mean "default") *)
+Definition DEFAULT_MAX_HEADER : nat := N.to_nat 65536.
+Definition conn_max_header (configured : option nat) : nat :=
+  match configured with Some (S n) => S n | _ => DEFAULT_MAX_HEADER end.
+
 Section Gzip.
   (* GzipDecompressor: [inflate st data max_length] = Some (st', output, unconsumed_tail),
      or None when zlib raises (converted to HTTPInputError since /repo commit 4f57f99) *)
